@@ -612,6 +612,8 @@ func (sc *serverConn) handleStreams() {
 			select {
 			case strm := <-sc.handlerDone:
 				strm.handlerRunning = false
+
+				sc.detachTimedOut(strm)
 				sc.dropResponse(strm)
 			default:
 				return
@@ -654,6 +656,8 @@ loop:
 			break loop
 		case strm := <-sc.handlerDone:
 			strm.handlerRunning = false
+
+			sc.detachTimedOut(strm)
 
 			if strm.abandoned {
 				// The peer reset the stream, or it timed out, while the
@@ -1731,7 +1735,7 @@ func (sc *serverConn) dispatchHandler(strm *Stream) {
 			case <-sc.handlerStop:
 				// Nobody is left to send the response, or to close a body
 				// stream the handler put in it.
-				_ = ctx.Response.CloseBodyStream()
+				closeLeftBody(ctx)
 
 				return
 			default:
@@ -1748,7 +1752,7 @@ func (sc *serverConn) dispatchHandler(strm *Stream) {
 				default:
 				}
 			case <-sc.handlerStop:
-				_ = ctx.Response.CloseBodyStream()
+				closeLeftBody(ctx)
 			}
 		}()
 
@@ -1841,6 +1845,44 @@ func (sc *serverConn) refillPending(strm *Stream) error {
 	return nil
 }
 
+// detachTimedOut gives a stream whose handler timed out a context of its own.
+// fasthttp.TimeoutHandler, and any handler that calls ctx.TimeoutError, returns
+// while the goroutine doing the work carries on with the RequestCtx; fasthttp
+// says so by keeping the response to send apart from it
+// (LastTimeoutErrorResponse), and its own server never touches or reuses such a
+// context again. Here the return of the handler would otherwise hand the
+// context back to the loop, which reads the response from it, closes its body
+// stream and puts it in a pool the next stream, on any connection, takes it
+// from, all beside a goroutine that is still writing to it. The response to
+// send is copied to a fresh context, and the old one is the handler's for good.
+//
+// It runs on whichever goroutine took the stream's report off handlerDone.
+func (sc *serverConn) detachTimedOut(strm *Stream) {
+	if strm.ctx == nil {
+		return
+	}
+
+	tr := strm.ctx.LastTimeoutErrorResponse()
+	if tr == nil {
+		return
+	}
+
+	ctx := &fasthttp.RequestCtx{}
+	ctx.Init2(sc.c, sc.logger, false)
+
+	tr.CopyTo(&ctx.Response)
+
+	strm.ctx = ctx
+}
+
+// closeLeftBody closes the body stream of a response nobody will send, unless
+// the context is one a timed-out handler's goroutine may still be using.
+func closeLeftBody(ctx *fasthttp.RequestCtx) {
+	if ctx.LastTimeoutErrorResponse() == nil {
+		_ = ctx.Response.CloseBodyStream()
+	}
+}
+
 // dropReported closes the body streams of the responses reported on handlerDone
 // that nobody has taken. It is for when the stream loop is gone: whoever finds
 // that out after reporting calls it, so that a report which went into the
@@ -1850,7 +1892,7 @@ func (sc *serverConn) dropReported() {
 		select {
 		case strm := <-sc.handlerDone:
 			if strm.ctx != nil {
-				_ = strm.ctx.Response.CloseBodyStream()
+				closeLeftBody(strm.ctx)
 			}
 		default:
 			return
